@@ -183,7 +183,12 @@ def _cap_and_policy(prog: Program, res: Result, lb: int):
         if isinstance(n, ast.If) and "max_boreholes" in ast.unparse(n.test):
             for s in ast.walk(n):
                 if isinstance(s, ast.Assign) and len(s.targets) == 1 and isinstance(s.targets[0], ast.Name) and s.targets[0].id == right_name:
-                    cap_defs.append((s, any(s is x for b in n.body for x in ast.walk(b))))
+                    t_ = n.test
+                    # which branch is taken when a cap is given?  test is  <cap> is None  |  <cap> is not None  |  <cap>
+                    given_branch = n.body
+                    if isinstance(t_, ast.Compare) and len(t_.ops) == 1 and isinstance(t_.ops[0], (ast.Is, ast.Eq)) and isinstance(t_.comparators[0], ast.Constant) and t_.comparators[0].value is None:
+                        given_branch = n.orelse
+                    cap_defs.append((s, any(s is x for b in given_branch for x in ast.walk(b))))
     cap_branch = [s for s, in_body in cap_defs if in_body]
     if not cap_branch:
         raise AnalysisError(f"{q}: definition of the right end under a borehole cap not found")
